@@ -134,7 +134,7 @@ def run_one(ctx, case, judge, ref_kw=None, exclude=None, nontrivial=None):
     codes = {int(k): v for k, v in case["codes"].items()}
     with RUN.Loaded(program) as loaded:
         for mask in case["masks"]:
-            truth = truth_for(cids, codes, mask)
+            truth = truth_for(cids, codes, mask) if "fixed_truth" not in case else dict(case["fixed_truth"])
             try:
                 res = H.run_case(program, case["ops"], truth, model=model, loaded=loaded, ref_kw=ref_kw)
             except REF.RefInconsistency as e:
